@@ -1,6 +1,7 @@
 import Gimli.Lemmas.LineSeq
 import Gimli.Lemmas.LineHeader
 import Gimli.Lemmas.LineEncode
+import Gimli.Lemmas.LineHeaderRt
 /-!
 # C04 — Line-number rows equal the DWARF state machine; sequences are consistent
 
@@ -353,5 +354,41 @@ because a format without exactly one `DW_LNCT_path` is rejected — and no non-t
 theorem header_total (e : Endian) (sec : Bytes) (off asz : Nat) (cd cn : Option Bytes) :
     (program e sec off asz cd cn).Normal :=
   program_normal e sec off asz cd cn
+
+/-- **Header round trip** — partial: versions 2–4. For every well-formed abstract header
+(`HeaderV4.WF`: valid parameters, non-empty NUL-free directory and file names, `u64` file
+attributes, lengths that fit their fields), either format, either byte order, any
+`standard_opcode_lengths`: parsing its §6.2.4 encoding (followed by anything) returns exactly its
+parameters, its include directories, its file table (name, directory index, time, size), its
+program bytes, and the caller's `comp_dir`/`comp_name` as directory 0 / file 0.
+
+Missing for the full statement: version 5 (`directory_entry_format` / `file_name_entry_format`
+tables and the forms of `parse_attribute`) — modelled (`parseHeader`), total (`header_total`) and
+valid (`header_valid`), and checked against the generator's intent by the `line-hexp` oracle, but
+without an encoder-level theorem. -/
+theorem header_roundtrip_partial (hs : HeaderV4) (hwf : hs.WF) (cd cn : Option Bytes)
+    (bytes trailing : Bytes) (henc : encodeHeaderV4 hs = .ok bytes) :
+    parseHeader hs.p.endian hs.p.addrSize cd cn (bytes ++ trailing) = .ok (hs.expected cd cn) :=
+  parseHeader_encodeV4 hs hwf cd cn bytes trailing henc
+
+/-- and the table lookups on what was read back: directory/file index 0 is the compilation
+directory / primary file, index `i ≥ 1` the `i`-th entry (versions 2–4) -/
+theorem header_lookup_v4 (hs : HeaderV4) (cd cn : Option Bytes) (hver : hs.p.version ≤ 4) (i : Nat) :
+    (hs.expected cd cn).directory 0 = cd.map .string ∧
+    (hs.expected cd cn).directory (i + 1) = (hs.dirs.map AttrVal.string)[i]? ∧
+    ((hs.expected cd cn).file 0).map (·.path) = cn.map .string ∧
+    (hs.expected cd cn).file (i + 1) = (hs.expected cd cn).files[i]? := by
+  simp [Header.directory, Header.file, HeaderV4.expected, hver]
+  cases cn <;> simp
+
+/-- non-vacuity: a version-3, 64-bit-format, big-endian header with two directories and two files -/
+def hdrEx : HeaderV4 where
+  p := { hdr4 with endian := .big, format := .dwarf64, version := 3, addrSize := 4 }
+  dirs := [[0x2f, 0x61], [0x62]]
+  files := [([0x78, 0x2e, 0x63], 1, 0, 0), ([0x79], 2, 0x1234, 300)]
+  program := [0, 1, 1]
+
+example : hdrEx.WF := by decide
+example : (encodeHeaderV4 hdrEx).isOk = true := by decide
 
 end Gimli.Props.C04
